@@ -52,6 +52,8 @@ Definition wf_val (f : pfield) (v : pval) : Prop :=
   | P_algnum, V_int n => n < 256
   | P_type, V_int t => t < 65536 /\ t <> 0 /\ t <> 65535
   | P_eui k, V_int n => eui_ok k n
+  (* a plain decimal (what the model knows ParseFloat accepts) that is one word *)
+  | P_float, V_word s => float_simple s = true /\ word_ok s = true
   | P_nodeid _, V_int n => n < 18446744073709551616
   (* the clock reads 1970 or later *)
   | P_time, V_time now t => (0 <= now)%Z /\ t < 4294967296
@@ -83,6 +85,7 @@ Definition field_items (f : pfield) (v : pval) : list item :=
   | P_time, V_time now t => [IWord (time_to_string now t)]
   | P_eui k, V_int n => [IWord (eui_to_string k n)]
   | P_nodeid up, V_int n => [IWord (nodeid_to_string up n)]
+  | P_float, V_word s => [IWord s]
   | _, _ => []
   end.
 
@@ -250,6 +253,7 @@ Proof.
   - now rewrite show_type_word_ok.
   - destruct (eui_roundtrip k n H) as [-> _]. reflexivity.
   - destruct (nodeid_roundtrip up n H) as [-> _]. reflexivity.
+  - destruct H as [_ H]. now rewrite H.
   - destruct H as [Hn Ht]. rewrite time_to_string_now by assumption. rewrite format_time_word_ok; [reflexivity|lia].
 Qed.
 
@@ -314,6 +318,7 @@ Proof.
     destruct (has_prefix b_TYPE (upper_bytes (show_type n))); [now rewrite R|discriminate].
   - (* P_eui *) destruct (eui_roundtrip k n H) as [_ ->]. reflexivity.
   - (* P_nodeid *) destruct (nodeid_roundtrip up n H) as [_ ->]. reflexivity.
+  - (* P_float *) destruct H as [-> _]. reflexivity.
   - (* P_time *) destruct H as [Hn Ht]. rewrite time_to_string_now by assumption.
     rewrite string_to_time_format by lia. cbn [bind]. now rewrite N2Z.id.
 Qed.
